@@ -158,7 +158,7 @@ func runFX(in []gmars.VerifToken) fxResult {
 		for _, t := range x.out {
 			res.out = append(res.out, tokenClass(t))
 		}
-	case <-time.After(5 * time.Second):
+	case <-time.After(20 * time.Second):
 		res.hung = true
 		return res
 	}
@@ -224,7 +224,7 @@ func cmdFX(args []string) {
 			if prop || div <= 25 {
 				w.line(fmt.Sprintf(`{"kind":%q,"in":%s,"want":%s,"got":%s,"panic":%s,"hung":%d,"leak":%d,"frame":%s}`, kind, mustJSON(c["in"]), strsJSON(want), strsJSON(r.out), jq(r.pan), hv, r.leak, jq(r.frame)))
 			}
-			if hung > 20 || bad >= 25 {
+			if hung > 4 || bad >= 25 {
 				break // enough evidence; every further leaking case costs a settle loop
 			}
 		}
